@@ -1,14 +1,23 @@
 #!/bin/bash
-# usage: check_seeded.sh [dir ...]   (default: every /verif/seeded/*)
-# applies each seeded change to /repo, runs the quick check of the property it breaks, undoes the change.
+# usage: check_seeded.sh [-j N] [dir ...]   (default: every /verif/seeded/*)
+# Applies each seeded change to a scratch worktree of /repo's HEAD (never to /repo itself),
+# points the quick check of the property it breaks at that worktree, removes the worktree.
 export GOFLAGS=-mod=mod GOPROXY=off GOSUMDB=off GOTOOLCHAIN=local
+J=1; if [ "$1" = "-j" ]; then J=$2; shift 2; fi
 dirs=${@:-/verif/seeded/*}
-git -C /repo status --short | grep -q . && { echo "/repo not clean"; exit 2; }
-for S in $dirs; do
-  [ -f $S/patch.diff ] || continue
-  id=$(basename $S | cut -d- -f1)
-  git -C /repo apply $S/patch.diff || { echo "$(basename $S): patch does not apply"; continue; }
-  timeout 3000 /verif/bin/gosym check $id --tier quick > $S/check_$id.log 2>&1; rc=$?
-  git -C /repo checkout -- .
-  echo "$(basename $S): check $id exit=$rc violations=$(grep -c '^VIOLATION' $S/check_$id.log) $(grep -m1 -A1 '^VIOLATION' $S/check_$id.log | tail -1 | cut -c1-110)"
-done
+one() {
+  S=$1; [ -f $S/patch.diff ] || return
+  n=$(basename $S); id=$(echo $n | cut -d- -f1)
+  W=$(mktemp -d /tmp/seedwt.XXXXXX); V=$(mktemp -d /tmp/seedv.XXXXXX)
+  git -C /repo worktree add -q --detach $W HEAD || { echo "$n: cannot create worktree"; return; }
+  if git -C $W apply $S/patch.diff; then
+    ln -s /verif/harness $V/harness; ln -s /verif/known_findings.txt $V/known_findings.txt
+    GOSYM_REPO_DIR=$W GOSYM_VERIF_DIR=$V timeout 3000 /verif/bin/gosym check $id --tier quick > $S/check_$id.log 2>&1; rc=$?
+    echo "$n: check $id exit=$rc violations=$(grep -c '^VIOLATION' $S/check_$id.log) $(grep -m1 -A1 '^VIOLATION' $S/check_$id.log | tail -1 | cut -c1-110)"
+  else
+    echo "$n: patch does not apply"
+  fi
+  git -C /repo worktree remove --force $W; rm -rf $V $W
+}
+export -f one
+printf '%s\n' $dirs | xargs -P $J -I{} bash -c 'one {}'
